@@ -63,6 +63,30 @@ pub mod probes_single {
             Self { tag: *tag - 1 }
         }
     }
+    /// a generic agent: the type argument only exercises the derive macro's handling of the field's type tokens
+    pub struct ProbeG<T: ?Sized> {
+        tag: u32,
+        _p: std::marker::PhantomData<T>,
+    }
+    impl<T: ?Sized> ProbeG<T> {
+        pub fn new(tag: &mut u32) -> Self {
+            *tag += 1;
+            Self { tag: *tag - 1, _p: std::marker::PhantomData }
+        }
+    }
+    pub trait Same {
+        type Out;
+    }
+    impl Same for ProbeA {
+        type Out = ProbeA;
+    }
+    impl<T: ?Sized> Agent for ProbeG<T> {
+        fn update<R: RngCore>(&mut self, env: &mut Env, rng: &mut R) {
+            let d = rng.next_u64();
+            log_push(LogRec { tag: self.tag, env_addr: env as *mut Env as usize, rng_addr: rng as *mut R as *mut u8 as usize, draw: d });
+            env.place_order(Side::Bid, 1 + (d % 3) as u32, self.tag, Some(90 + (d % 50) as u32)).unwrap();
+        }
+    }
     impl Agent for ProbeA {
         fn update<R: RngCore>(&mut self, env: &mut Env, rng: &mut R) {
             let d = rng.next_u64();
@@ -110,6 +134,30 @@ pub mod probes_multi {
         pub fn new(tag: &mut u32) -> Self {
             *tag += 1;
             Self { tag: *tag - 1 }
+        }
+    }
+    /// a generic agent: the type argument only exercises the derive macro's handling of the field's type tokens
+    pub struct ProbeG<T: ?Sized> {
+        tag: u32,
+        _p: std::marker::PhantomData<T>,
+    }
+    impl<T: ?Sized> ProbeG<T> {
+        pub fn new(tag: &mut u32) -> Self {
+            *tag += 1;
+            Self { tag: *tag - 1, _p: std::marker::PhantomData }
+        }
+    }
+    pub trait Same {
+        type Out;
+    }
+    impl Same for ProbeA {
+        type Out = ProbeA;
+    }
+    impl<T: ?Sized> MarketAgent for ProbeG<T> {
+        fn update<R: RngCore, const M: usize, const N: usize>(&mut self, env: &mut MarketEnv<M, N>, rng: &mut R) {
+            let d = rng.next_u64();
+            log_push(LogRec { tag: self.tag, env_addr: env as *mut MarketEnv<M, N> as usize, rng_addr: rng as *mut R as *mut u8 as usize, draw: d });
+            env.place_order((d >> 20) as usize % M, Side::Bid, 1 + (d % 3) as u32, self.tag, Some(90 + (d % 50) as u32)).unwrap();
         }
     }
     impl MarketAgent for ProbeA {
